@@ -3,7 +3,8 @@ from ..core import Script, Rng
 from ..stage import LineStage, replay_line
 from .common import *
 
-ARTEFACTS = ["G1-consts", "G2-rs-portable", "G3-arith", "G3b-regions"]
+ARTEFACTS = ["G1-consts", "G2-rs-portable", "G3-arith", "G3b-regions", "G14-c-state"]
+EXTRA_PROPS = [("B3.Props.C06T", "B3/Props/C06T.lean")]   # theorems about the code translated from the sources
 RULE = ("C API histories under every g_cpu_features level: init / init_keyed / init_derive_key / init_derive_key_raw (contexts with "
         "embedded NULs for raw), update splits from the C02 size classes, finalize(out_len) and finalize_seek(seek, out_len) with seeks "
         "from the C03 boundary set and out_len in {0..130, 64j+-1, <=5000}, reset, clone, samelive (finalize leaves the hasher "
@@ -91,8 +92,18 @@ def stages(tier, seed, witness_search=False):
             ops += [f"C upd a {pat(b * 1024 + rng.choice([0, 1, -1]), rng)}", "C fin a 32", f"C upd a {pat(rng.choice([0, 1, 2048]), rng)}",
                     "C finseek a 60 140"]
             scripts.append(Script(ops, tags=("grid", feat)))
-    return [LineStage("c-api", scripts, impl="c")]
+    # seeks at the counter boundaries of the wide xof kernels (16-, 8-, 4-, 2-block groups and the single-block tail), where the
+    # high counter word changes inside one call: 2^38 bytes = block 2^32, and 2^37 = bit 31 of the low word
+    for base in [1 << 38, 1 << 37, 3 << 38]:
+        for feat in PLATFORMS:
+            ops = [f"C feat {feat}", f"C init a {mode_tok(rng, 'hash')}", f"C upd a {pat(rng.choice([0, 3, 1025]), rng)}"]
+            for back in [0, 1, 2, 3, 5, 9, 17, 40]:
+                ops.append(f"C finseek a {base - 64 * back + rng.choice([0, 0, 7])} {rng.choice([64 * back + 64, 1100, 2048 + 65, 130])}")
+            scripts.append(Script(ops, tags=("seek-boundary", feat)))
+    return [LineStage("c-api", scripts, impl="c"),
+            # the same histories against the library built with the C intrinsics kernels behind the dispatcher
+            LineStage("c-api-intrinsics", scripts, impl="c_ci")]
 
 
 def replay(d, lean_exe):
-    return replay_line(d, lean_exe, impl="c")
+    return replay_line(d, lean_exe, impl="c_ci" if d.get("stage") == "c-api-intrinsics" else "c")
